@@ -9,6 +9,7 @@ emitted maps it there (at most as many copies as mappings), every line has the
 documented format with the emitter's facility/severity and the simulated
 time stamp, and every file ends in a newline.
 """
+import zlib
 import collections, copy, json, os, random, re, shutil, time
 import host as H
 import proto
@@ -116,13 +117,19 @@ def render(ents, rnd=None):
     if ents is None:
         return CORE         # the file does not mention the logs section at all
     out = ["logs {"]
-    for n, v in ents:
+    # one file in eight writes the section as two blocks (a function of the entries, so that the same table always
+    # gives the same file): blocks of one name are one section, in the order written
+    h = zlib.crc32(repr(ents).encode())
+    cut = 1 + (h >> 8) % (len(ents) - 1) if len(ents) >= 2 and h % 8 == 0 else None
+    for j, (n, v) in enumerate(ents):
+        if j == cut:
+            out += ["}", 'core { "note" "between the blocks" }' if h % 16 == 0 else "", "logs {"]
         if isinstance(v, list):
             out.append(' %s ( %s )' % (conf_quote(n), ", ".join('"file:%s"' % f for f in v)))
         else:
             out.append(' %s "file:%s"' % (conf_quote(n), v))
     out.append("}")
-    return CORE + "\n".join(out) + "\n"
+    return CORE + "\n".join(x for x in out if x) + "\n"
 
 
 def stamp(ns):
